@@ -38,6 +38,7 @@ class _:
     requires = ["forall_items(messages, msg_encodable)", "len(messages) < 100000000",
                 "offset is None or (0 <= offset and offset + len(messages) < 9223372036854775807)", "magic == 0 or magic == 1"]
     ensures = {"func[C04]": "result == enc_msgset_prefix(messages, ite(offset is None, 0, offset), ite(offset is None, 0, 1), len(messages))"}
+    locals = {"message_set": "List[bytes]"}
     loops = {"for#1": dict(index="i", inv=[
         "join_bytes(message_set) == enc_msgset_prefix(messages, ite(old(offset) is None, 0, old(offset)), incr, i)",
         "offset == ite(old(offset) is None, 0, old(offset) + i)",
